@@ -201,6 +201,9 @@ func init() {
 		st := m.mutexes[p]
 		return m.C.Bool(st != nil && (st.locked || st.readers > 0))
 	})
+	reg(hpkg+"verifWaitGroupCount", func(m *Machine, _ *frame, _ token.Pos, _ *ssa.Function, a []Value) Value {
+		return m.bv64(m.wg(a[0].(*Value)).n)
+	})
 	reg(hpkg+"verifMsg", func(m *Machine, _ *frame, _ token.Pos, fn *ssa.Function, a []Value) Value {
 		// a proto message whose serialised form is the given bytes (see proto.Marshal)
 		t := fn.Signature.Results().At(0).Type()
